@@ -1,1 +1,132 @@
-(* placeholder, being written *)
+(* C09 - Cropland neither double-counted nor lost.
+   Statements about Model/Series.v (transliteration of outdoor_crops.py / greenhouses.py as they are after
+   fix: 92d5ee9 and 28cb69e); proofs in Proofs/Series.v.  The non-integer power x ** e of crop relocation is an
+   arbitrary function pw with the two order hypotheses written out in each statement. *)
+From Coq Require Import QArith List Bool Arith Lia.
+From Allfed Require Import Base.QSeries Model.Series Proofs.Series.
+Import ListNotations.
+Open Scope Q_scope.
+
+(* one value per month *)
+Theorem c09_lengths : forall pw c g, (gadd g = true -> 42 <= cN c)%nat ->
+  List.length (outdoor_production pw c g) = cN c /\
+  List.length (greenhouse_area (cN c) g) = cN c /\
+  List.length (greenhouse_fraction (cN c) g) = cN c.
+Proof.
+  intros pw c g H. repeat split;
+  [apply outdoor_production_length|apply greenhouse_area_length; exact H|apply greenhouse_fraction_length; exact H].
+Qed.
+Print Assumptions c09_lengths.
+
+(* greenhouse area: zero until delay + 5 months, then the 37-point ramp, then the plateau *)
+Theorem c09_area_closed_form : forall n g m, (gadd g = true -> 42 <= n)%nat -> (m < n)%nat ->
+  nthq (greenhouse_area n g) m ==
+  (if Qeq_bool (total_crop_area g) 0 then 0
+   else if gadd g then
+     let limit := total_crop_area g * gmult g in
+     if (m <? gdelay g + 5)%nat then 0
+     else if (m <? gdelay g + 42)%nat then limit * qnat (m - (gdelay g + 5)) / 36
+     else limit
+   else 0).
+Proof. intros n g m H Hm. rewrite (greenhouse_area_nth n g m H Hm). reflexivity. Qed.
+Print Assumptions c09_area_closed_form.
+
+Theorem c09_area_zero_until_delay : forall n g m, (gadd g = true -> 42 <= n)%nat -> (m < n)%nat ->
+  (m < gdelay g + 5)%nat -> nthq (greenhouse_area n g) m == 0.
+Proof. intros n g m H Hm Hd. rewrite (greenhouse_area_nth n g m H Hm). apply area_spec_zero_before. exact Hd. Qed.
+Print Assumptions c09_area_zero_until_delay.
+
+(* rises monotonically to at most its configured share of cropland *)
+Theorem c09_area_monotone_capped : forall n g, (gadd g = true -> 42 <= n)%nat -> 0 <= total_crop_area g * gmult g ->
+  (forall i j, (i <= j)%nat -> (j < n)%nat -> nthq (greenhouse_area n g) i <= nthq (greenhouse_area n g) j) /\
+  (forall m, (m < n)%nat -> 0 <= nthq (greenhouse_area n g) m /\
+                            nthq (greenhouse_area n g) m <= total_crop_area g * gh_mult g).
+Proof.
+  intros n g H Hl. split.
+  - intros i j Hij Hj. rewrite (greenhouse_area_nth n g i H) by lia. rewrite (greenhouse_area_nth n g j H Hj).
+    apply area_spec_mono; assumption.
+  - intros m Hm. rewrite (greenhouse_area_nth n g m H Hm). apply area_spec_bounds. exact Hl.
+Qed.
+Print Assumptions c09_area_monotone_capped.
+
+(* the fraction of cropland under greenhouses is area / cropland and lies in [0,1] when the share is *)
+Theorem c09_fraction : forall n g m, (gadd g = true -> 42 <= n)%nat -> (m < n)%nat ->
+  nthq (greenhouse_fraction n g) m ==
+    (if Qeq_bool (total_crop_area g) 0 then 0 else nthq (greenhouse_area n g) m / total_crop_area g) /\
+  (0 <= total_crop_area g -> 0 <= gmult g -> gmult g <= 1 ->
+   0 <= nthq (greenhouse_fraction n g) m /\ nthq (greenhouse_fraction n g) m <= 1).
+Proof.
+  intros n g m H Hm. split.
+  - rewrite (greenhouse_fraction_nth n g m H Hm). unfold frac_spec.
+    destruct (Qeq_bool (total_crop_area g) 0); [reflexivity|].
+    rewrite (greenhouse_area_nth n g m H Hm). reflexivity.
+  - intros. rewrite (greenhouse_fraction_nth n g m H Hm). apply frac_spec_range; assumption.
+Qed.
+Print Assumptions c09_fraction.
+
+(* net output = amount grown x (1 - greenhouse fraction) x (1 - distribution waste): an exact identity over the
+   rationals, i.e. no rounding or truncation is applied (both relocation branches) *)
+Theorem c09_net_output : forall pw c g m, cadd c = true -> (m < cN c)%nat ->
+  nthq (outdoor_production pw c g) m ==
+  (if crot c && (chd c + crotdelay c <=? m)%nat then nthq (grown pw c) m else nthq (norel_grown c) m)
+  * (1 - nthq (greenhouse_fraction (cN c) g) m) * (1 - cwd c / 100).
+Proof. intros pw c g m Ha Hm. exact (outdoor_production_nth pw c g m Ha Hm). Qed.
+Print Assumptions c09_net_output.
+
+Theorem c09_no_crops_when_switched_off : forall pw c g m, cadd c = false -> nthq (outdoor_production pw c g) m == 0.
+Proof. exact outdoor_production_off. Qed.
+Print Assumptions c09_no_crops_when_switched_off.
+
+(* switching to relocated crops never lowers any month's output *)
+Theorem c09_relocation_never_lowers : forall pw : Q -> Q -> Q,
+  (forall x e, 0 <= x -> x <= 1 -> 0 < e -> e <= 1 -> x <= pw x e) ->
+  (forall x e, 0 <= x -> x <= 1 -> 0 < e -> e <= 1 -> pw x e <= 1) ->
+  forall c g m,
+  all_nonneg (months_cycle c) -> 0 < cexp c -> cexp c <= 1 -> 1 <= carea c -> cadd c = true -> (m < cN c)%nat ->
+  (gadd g = true -> 42 <= cN c)%nat -> 0 <= total_crop_area g -> 0 <= gmult g -> gmult g <= 1 ->
+  0 <= cwd c /\ cwd c <= 100 ->
+  nthq (outdoor_production pw (set_rot c false) g) m <= nthq (outdoor_production pw (set_rot c true) g) m.
+Proof. intros pw H1 H2 c g m. apply relocation_never_lowers; assumption. Qed.
+Print Assumptions c09_relocation_never_lowers.
+
+(* expanding cropland never lowers any month's output *)
+Theorem c09_expansion_never_lowers : forall pw : Q -> Q -> Q,
+  (forall x e, 0 <= x -> x <= 1 -> 0 < e -> e <= 1 -> x <= pw x e) ->
+  (forall x e, 0 <= x -> x <= 1 -> 0 < e -> e <= 1 -> pw x e <= 1) ->
+  forall c g m,
+  all_nonneg (months_cycle c) -> 0 < eff_exp c /\ eff_exp c <= 1 -> 1 <= carea c -> cadd c = true -> (m < cN c)%nat ->
+  (gadd g = true -> 42 <= cN c)%nat -> 0 <= total_crop_area g -> 0 <= gmult g -> gmult g <= 1 ->
+  0 <= cwd c /\ cwd c <= 100 ->
+  nthq (outdoor_production pw (set_area c 1) g) m <= nthq (outdoor_production pw c g) m.
+Proof. intros pw H1 H2 c g m. apply expansion_never_lowers; assumption. Qed.
+Print Assumptions c09_expansion_never_lowers.
+
+(* the hypothesis on the monthly cycle follows from non-negative inputs *)
+Theorem c09_cycle_nonneg : forall c, List.length (cseas c) = 12%nat -> (1 <= cstart c <= 12)%nat ->
+  all_nonneg (cseas c) -> 0 <= cbase c -> all_nonneg (months_cycle c).
+Proof. exact months_cycle_nonneg. Qed.
+Print Assumptions c09_cycle_nonneg.
+
+(* ---- non-vacuity: a small country (monthly crops below one billion kcal), greenhouses and relocation on *)
+Definition ex_crop : crop_in :=
+  Build_crop_in 48 5 250 [1#12;1#12;1#12;1#12;1#12;1#12;1#12;1#12;1#12;1#12;1#12;1#12] (1#2)
+                [3#4;1#4;1#4;1#2;1#2;3#4;1;1;1] None true (4#5) (72#39) 8 3 2 10 0 true.
+Definition ex_gh : gh_in := Build_gh_in true 2 (19#143) 44 1430000000 (1#1000).
+Definition ex_pw : Q -> Q -> Q := fun x _ => x.   (* satisfies both hypotheses *)
+
+Example ex_pw_ok : (forall x e, 0 <= x -> x <= 1 -> 0 < e -> e <= 1 -> x <= ex_pw x e) /\
+                   (forall x e, 0 <= x -> x <= 1 -> 0 < e -> e <= 1 -> ex_pw x e <= 1).
+Proof. split; intros; unfold ex_pw; assumption || apply Qle_refl. Qed.
+
+Example ex_admissible : crops_ok ex_pw ex_crop ex_gh = true.
+Proof. vm_compute. reflexivity. Qed.
+
+(* month 30: below one billion kcal, not an integer, and strictly reduced by the greenhouse fraction *)
+Example ex_not_quantised :
+  let x := nthq (outdoor_production ex_pw ex_crop ex_gh) 30 in
+  0 < x /\ x < 1 /\ 0 < nthq (greenhouse_fraction 48 ex_gh) 30 /\
+  x < nthq (grown ex_pw ex_crop) 30 * (1 - cwd ex_crop / 100).
+Proof. vm_compute. repeat split; reflexivity. Qed.
+
+Example ex_area_hypotheses : (gadd ex_gh = true -> 42 <= cN ex_crop)%nat /\ 0 <= total_crop_area ex_gh * gmult ex_gh.
+Proof. split; [intros _; vm_compute; lia|vm_compute; discriminate]. Qed.
